@@ -50,6 +50,10 @@ type Scenario struct {
 	Concurrent  bool // producers run as concurrent tasks
 	FaultNum    int  // per-stage failure probability FaultNum/16
 	BouncePlans []*actors.StagePlan
+	// Chain (C18): failure reports are additionally routed into a second queue
+	// with a bounce pipeline of its own, whose target fails per ChainPlans
+	Chain      bool
+	ChainPlans []*actors.StagePlan
 }
 
 var addrPool = []string{
@@ -71,7 +75,7 @@ var senderPool = []string{
 
 func (sc *Scenario) Shape() string {
 	var sb strings.Builder
-	fmt.Fprintf(&sb, "m%d t%d r%v s%v p%d pi%v pa%v b%v c%v f%d|", len(sc.Msgs), sc.MaxTries, sc.Retry, sc.Scale, sc.Parallel, sc.PostInit, sc.Partial, sc.Bounce, sc.Concurrent, sc.FaultNum)
+	fmt.Fprintf(&sb, "m%d t%d r%v s%v p%d pi%v pa%v b%v c%v f%d ch%v|", len(sc.Msgs), sc.MaxTries, sc.Retry, sc.Scale, sc.Parallel, sc.PostInit, sc.Partial, sc.Bounce, sc.Concurrent, sc.FaultNum, sc.Chain)
 	for _, m := range sc.Msgs {
 		fmt.Fprintf(&sb, "[%d from=%v ab=%v", len(m.Rcpts), m.From != "", m.AbortIt)
 		for _, p := range m.Plans {
@@ -298,6 +302,12 @@ func Gen(t *simrt.Tape, prof string) *Scenario {
 			sc.BouncePlans = append(sc.BouncePlans, genPlan(t, "bplan", nil, 3))
 		} else {
 			sc.BouncePlans = append(sc.BouncePlans, &actors.StagePlan{})
+		}
+	}
+	if prof == "c18" {
+		sc.Chain = t.Choose("scen", 2) == 1
+		for i := 0; i < 8; i++ {
+			sc.ChainPlans = append(sc.ChainPlans, genPlan(t, "cplan", nil, 10))
 		}
 	}
 	return sc
